@@ -1,5 +1,254 @@
-"""Whole-program translation validation of JIT output (placeholder: families are added below)."""
-def run_families(tier, timeout_ms, fams):
-    return dict(obligations=0, discharged=0), []
+"""Whole-program translation validation: the code the real JIT emitted for a concrete program is executed
+symbolically from its entry point (all argument registers, packet and metadata contents symbolic) and compared with the
+interpreter -- the MIR of execute_program executed symbolically on the same concrete program and the same symbolic inputs.
+Families: F2 control flow / jump fix-ups, F3 long distances, F4 local calls (C07), F5 VM-kind prologues (C09), helper ABI (C08)."""
+import traceback, json
+from z3 import (BitVec, BitVecVal, BoolVal, And, Or, Not, If, ULT, ULE, UGT, UGE, URem, Extract, ZeroExt, Select, simplify, is_true, is_false, Array,
+                BitVecSort, BVAddNoOverflow)
+import common, mirsym, interp, spec, obl, x86sym, ref
+from obl import mval
+from ref import insn, lddw
+from driver import Driver
+from x86sym import REGS
+
+MOV_R0_R0 = insn(0xbf, 0, 0)
+
+
+# ------------------------------------------------------------------------------------------ program families
+def fam_F2():
+    """control flow over variable-length encodings; results folded into r0"""
+    P = []
+    def prog(name, *ins): P.append((name, b''.join(ins)))
+    ld = lambda r, off: insn(0x79, r, 1, off)         # ldxdw r, [r1+off]   (r1 = metadata buffer)
+    prog('forward-cond', ld(2, 0), ld(3, 8), insn(0xb7, 0, 0, 0, 1), insn(0x2d, 2, 3, 1), insn(0xb7, 0, 0, 0, 2), insn(0x95))
+    prog('jump-over-lddw', ld(2, 0), insn(0xb7, 0, 0, 0, 7), insn(0x15, 2, 0, 2, 5), lddw(0, 0x1122334455667788), insn(0x95))
+    prog('backward-loop', ld(2, 0), insn(0xb7, 0), insn(0xb7, 3, 0, 0, 3), insn(0x0f, 0, 2), insn(0x07, 3, 0, 0, -1), insn(0x55, 3, 0, -3, 0), insn(0x95))
+    prog('chain', ld(2, 0), insn(0x05, 0, 0, 2), insn(0xb7, 0, 0, 0, 9), insn(0x95), insn(0x05, 0, 0, -3))
+    prog('mixed-encodings', ld(2, 0), ld(3, 8), insn(0x07, 2, 0, 0, 200), insn(0x65, 2, 0, 3, -5), lddw(4, 0xdeadbeefcafe), insn(0x0f, 2, 4), insn(0xbf, 0, 2), insn(0x1f, 0, 3), insn(0x95))
+    prog('jset-32', ld(2, 0), ld(3, 8), insn(0xb7, 0, 0, 0, 0), insn(0x4e, 2, 3, 1), insn(0x95), insn(0xb7, 0, 0, 0, 1), insn(0x95))
+    prog('div-by-zero-continue', ld(2, 0), ld(3, 8), insn(0x3f, 2, 3), insn(0x9f, 3, 2), insn(0xbf, 0, 2), insn(0x0f, 0, 3), insn(0x95))
+    prog('store-load', ld(2, 0), insn(0x7b, 10, 2, -8), insn(0x62, 10, 0, -16, -2), insn(0x79, 0, 10, -8), insn(0x61, 3, 10, -16), insn(0x0f, 0, 3), insn(0x7b, 1, 0, 16), insn(0x95))
+    prog('dead-code', ld(2, 0), insn(0xbf, 0, 2), insn(0x95), insn(0xb7, 0, 0, 0, 99), insn(0x95))
+    return P
+
+
+def fam_F3(tier):
+    """long distances: hops of <= 32767 over N fillers in total, then div/mod by a zero register (whose divide-by-zero
+    continuation depends on the instruction index) and a conditional jump, all beyond instruction 65535"""
+    P = []
+    dists = [65534, 70000] if tier != 'quick' else [65600]
+    for N in dists:
+        prog = bytearray(insn(0x79, 2, 1, 0) + insn(0xb7, 3) + insn(0xb7, 0, 0, 0, 5))
+        rest = N
+        while rest > 0:
+            h = min(rest, 32767); rest -= h
+            # a jump followed by h filler slots; it lands on the last filler (which becomes the next hop) or just after them
+            prog += insn(0x05, 0, 0, h - 1 if rest > 0 else h)
+            chunk = bytearray(MOV_R0_R0 * h)
+            prog += chunk[:-8] if rest > 0 else chunk
+        prog += insn(0x3f, 2, 3) + insn(0x0f, 0, 2) + insn(0x9f, 0, 3) + insn(0x2d, 0, 3, 1) + insn(0x07, 0, 0, 0, 100) + insn(0x95)
+        P.append((f'far-{N}', bytes(prog)))
+    return P
+
+
+# ------------------------------------------------------------------------------------------ engines
+def interp_whole(I, prog, assume):
+    """all paths of the interpreter (MIR) on a concrete program with symbolic inputs"""
+    st = I.entry_state(prog_len=len(prog)); S = I.S
+    # the stack-usage map StackVerifier::stack_validate builds without a calculator: Default at 0 and at every CALL's pc+1+imm
+    um = {0: None}
+    for i in range(len(prog) // 8):
+        if prog[8 * i] == 0x85: um[i + 1 + ref.sx(int.from_bytes(prog[8 * i + 4:8 * i + 8], 'little'), 32)] = None
+    I.usage_concrete = um
+    st.aux['overlay'] = mirsym.ProgOverlay(S.prog_base, prog)
+    st.pc += [simplify(c) for c in [S.prog_len == len(prog)] + list(assume)]
+    return I.eng.explore(st)
+
+
+def x86_whole(code, X, st0):
+    return X.run(st0, set())
+
+
+class Ctx:
+    def __init__(self, timeout_ms):
+        timeout_ms = max(timeout_ms, 90000)       # whole-program memory-equality queries carry longer store chains
+        mir, key = common.load_mir('std'); tt = common.type_table()
+        # the interpreter's 512-byte stack *is* the area the JIT prologue reserves below RBP = entry RSP - 40
+        self.I = interp.Interp(mir, tt, nranges=0, overflow_panics=False, timeout_ms=timeout_ms, stack_base=BitVec('x_rsp', 64) - 552)
+        self.I.eng.max_paths = 4000
+        self.drv = Driver.get('dev'); self.pr = obl.Prover(timeout_ms, common.seed()); self.timeout_ms = timeout_ms
+
+
+def entry_x86(S, vm, fixed=None):
+    """machine state at the entry of the generated function for each VM kind's wrapper (src/lib.rs execute_program_jit)"""
+    st = x86sym.fresh_state(mem=S.M0)
+    X0 = dict(st.r)
+    null_if_empty = If(S.mem_len == 0, BitVecVal(0, 64), S.mem_base)
+    if vm == 'mbuff': args = (S.mbuff_base, S.mbuff_len, null_if_empty, S.mem_len, BitVecVal(0, 64), BitVecVal(0, 64))
+    elif vm == 'raw': args = (BitVecVal(0, 64), BitVecVal(0, 64), null_if_empty, S.mem_len, BitVecVal(0, 64), BitVecVal(0, 64))
+    elif vm == 'nodata': args = (BitVecVal(0, 64), BitVecVal(0, 64), BitVecVal(0, 64), BitVecVal(0, 64), BitVecVal(0, 64), BitVecVal(0, 64))
+    elif vm == 'fixed': args = (S.mbuff_base, S.mbuff_len, null_if_empty, S.mem_len, BitVecVal(fixed[0], 64), BitVecVal(fixed[1], 64))
+    for rg, v in zip(('rdi', 'rsi', 'rdx', 'rcx', 'r8', 'r9'), args): st.r[rg] = v
+    st.ip = 0
+    return st, X0
+
+
+def check_program(ctx, name, prog, vm='mbuff', helpers=(), props=('C03',), fixed=None, extra_assume=(), whole_role='jit-program'):
+    pr = ctx.pr; S = ctx.I.S; cands = []
+    r = ctx.drv.request(dict(op='compile', vm=vm, prog=prog.hex(), engine='jit', helpers=[list(h) for h in helpers], fixed=list(fixed) if fixed else None))
+    if r.get('status') != 'ok':
+        pr.out['errors'].append(f'{name}: jit_compile failed: {r.get("status")} {r.get("msg")}'); return cands
+    code = bytes.fromhex(r['code'])
+    X = x86sym.X86(code, ctx.timeout_ms); X.hcall = S.hcall; X.max_steps = 400000
+    st0, X0 = entry_x86(S, vm, fixed)
+    rsp0 = X0['rsp']; X.rsp0 = rsp0
+    # relation between the two stacks: the interpreter's 512-byte stack is the area the prologue reserves below RBP
+    assume = [UGE(rsp0, 1 << 21), ULE(rsp0, 1 << 62), URem(rsp0, 16) == 8]
+    for b, l in ((S.mem_base, S.mem_len), (S.mbuff_base, S.mbuff_len)):
+        assume.append(Or(l == 0, ULE(b + l, rsp0 - 8192), UGE(b, rsp0 + 4096)))        # caller buffers are away from the native stack
+        assume.append(ULE(l, 1 << 32))
+    for b, l in ((S.prog_base, BitVecVal(len(prog), 64)),):
+        assume.append(Or(ULE(b + l, rsp0 - 8192), UGE(b, rsp0 + 4096)))
+        for b2, l2 in ((S.mem_base, S.mem_len), (S.mbuff_base, S.mbuff_len)):
+            assume.append(Or(l2 == 0, ULE(b + l, b2), ULE(b2 + l2, b)))
+    if vm in ('raw', 'nodata'): assume.append(S.mbuff_len == 0)
+    if vm == 'nodata': assume.append(S.mem_len == 0)
+    for k_, kind in helpers: assume.append(S.helper(BitVecVal(k_, 32)) == int(dict((a, b) for a, b in r['helper_addrs'])[k_]))
+    assume += list(extra_assume)
+    try:
+        ips = interp_whole(ctx.I, prog, assume)
+        st0.pc += [simplify(c) for c in assume] + ctx.I._base()
+        xs = x86_whole(code, X, st0)
+    except (mirsym.Unsupported, x86sym.Undecodable) as e:
+        pr.out['errors'].append(f'{name}: {type(e).__name__}: {e}'); return cands
+    oks = [p for p in ips if p.kind == 'return' and is_true(simplify(p.payload.disc() == 0))]
+    bad = [p for p in ips if p.kind not in ('return',)]
+    for p in bad: pr.out['errors'].append(f'{name}: interpreter path of kind {p.kind}: {p.payload}')
+    def cand(aspect, detail, m, extra=None):
+        md = None
+        if m is not None:
+            md = dict(mem_len=mval(m, S.mem_len), mbuff_len=mval(m, S.mbuff_len))
+            md['mem_bytes'] = [mval(m, Select(S.M0, S.mem_base + i)) for i in range(min(md['mem_len'], 128))]
+            md['mbuff_bytes'] = [mval(m, Select(S.M0, S.mbuff_base + i)) for i in range(min(md['mbuff_len'], 128))]
+            if extra: md.update({k2: mval(m, v) for k2, v in extra.items()})
+        cands.append(dict(role=f'{whole_role}/{name}/{aspect}', detail=detail, model=md, whole=True, prog=prog.hex() if len(prog) < 4096 else None, progname=name,
+                          vm=vm, helpers=[list(h) for h in helpers], fixed=list(fixed) if fixed else None, friendly=True))
+    small = [[ULE(S.mem_len, 64), ULE(S.mbuff_len, 64), UGE(S.mbuff_len, 32), UGE(S.mem_len, 16)], []]
+    a_sym = BitVec('a_any', 64)
+    in_bufs = Or(And(ULE(S.mem_base, a_sym), ULT(a_sym, S.mem_base + S.mem_len)), And(ULE(S.mbuff_base, a_sym), ULT(a_sym, S.mbuff_base + S.mbuff_len)))
+    if not oks: pr.out['errors'].append(f'{name}: interpreter never returns a value (vacuous)')
+    for ip_ in oks:
+        icond = list(ip_.st.pc); v = ip_.payload.payload[0][0].t; covered = []
+        for xs_ in xs:
+            both = icond + xs_.pc[len(st0.pc) if False else 0:]
+            r0, _ = pr.check(both, [])
+            if r0 == 'unsat': continue
+            if r0 == 'unknown': pr.out['inconclusive'].append(f'{name}: path pairing'); continue
+            covered.append(And(*xs_.pc) if xs_.pc else BoolVal(True))
+            for (oname, cnd, ipx) in xs_.obligations:
+                rr, m = pr.prove(f'{name}:{oname}@{ipx:#x}', both, cnd)
+                if rr == 'sat': cand(oname, f'{oname} violated at code offset {ipx:#x}', pr.refine(small, m))
+            pr.out['obligations'] += 1
+            if not (isinstance(xs_.ip, tuple) and xs_.ip[0] == 'ret'):
+                cand('control-leaves-code', f'generated code ends at {xs_.ip}', None); continue
+            pr.out['discharged'] += 1
+            rr, m = pr.prove(f'{name}:return-address', both, xs_.ip[1] == Select(S.M0, rsp0) if False else BoolVal(True))
+            rr, m = pr.prove(f'{name}:result', both, xs_.r['rax'] == v, sample=f'{name} ({vm}): RAX at the final ret = interpreter Ok(v), all packet/metadata contents')
+            if rr == 'sat': cand('result', 'returned value differs from the interpreter', pr.refine(small, m), dict(got=xs_.r['rax'], want=v))
+            rr, m = pr.prove(f'{name}:buffers', both + [in_bufs], Select(xs_.mem.arr, a_sym) == Select(ip_.st.mem, a_sym), sample=f'{name}: packet and metadata bytes after = interpreter')
+            if rr == 'sat': cand('buffers', 'packet/metadata bytes differ from the interpreter', pr.refine(small, m), dict(addr=a_sym))
+            for rg in ('rbx', 'rbp', 'r12', 'r13', 'r14', 'r15'):
+                rr, m = pr.prove(f'{name}:callee-saved-{rg}', both, xs_.r[rg] == X0[rg])
+                if rr == 'sat': cand('callee-saved', f'{rg} not restored at return', m)
+            rr, m = pr.prove(f'{name}:rsp', both, xs_.r['rsp'] == rsp0 + 8)
+            if rr == 'sat': cand('rsp', 'stack pointer not restored at return', m)
+            if 'C08' in props:
+                hx = [e for e in xs_.events if e[0] == 'hcall']; hi = [e for e in ip_.st.events if e[0] == 'hcall']
+                pr.out['obligations'] += 1
+                if len(hx) != len(hi): cand('helper-call-count', f'{len(hx)} native helper calls vs {len(hi)} in the interpreter', None)
+                else:
+                    pr.out['discharged'] += 1
+                    for n_, (ex, ei) in enumerate(zip(hx, hi)):
+                        rr, m = pr.prove(f'{name}:helper{n_}-target', both, ex[1] == S.helper(ei[1]))
+                        if rr == 'sat': cand('helper-target', f'call #{n_} goes to another address than the registered helper', m)
+                        for j in range(5):
+                            rr, m = pr.prove(f'{name}:helper{n_}-arg{j+1}', both, ex[2][j] == ei[2][j])
+                            if rr == 'sat': cand('helper-args', f'call #{n_}: argument {j+1} differs', m)
+                        rr, m = pr.prove(f'{name}:helper{n_}-stack-aligned', both, URem(ex[3], 16) == 0, sample=f'{name}: RSP = 0 (mod 16) at helper call #{n_} given RSP = 8 (mod 16) at entry')
+                        if rr == 'sat': cand('helper-call-stack-misaligned', f'RSP not 16-byte aligned at helper call #{n_}', m)
+        if covered:
+            rr, m = pr.prove(f'{name}:coverage', icond, Or(*covered))
+            if rr == 'sat': cand('missing-path', 'generated code has no path for an input on which the interpreter returns a value', pr.refine(small, m))
+        else:
+            rr, m = pr.check(icond, [])
+            if rr == 'sat': cand('missing-path', 'no generated-code path matches an interpreter path that returns a value', pr.refine(small, m))
+    pr.out['programs'] += 1
+    return cands
+
+
+def worker(args):
+    items, props, timeout_ms = args
+    try:
+        ctx = Ctx(timeout_ms); cands = []
+        for it in items:
+            try:
+                S = ctx.I.S
+                ex = [UGE(S.mbuff_len, it['min_mbuff']), UGE(S.mem_len, it.get('min_mem', 1))] if 'min_mbuff' in it else []
+                cands += check_program(ctx, it['name'], bytes.fromhex(it['prog']), vm=it.get('vm', 'mbuff'), helpers=[tuple(h) for h in it.get('helpers', [])], props=props,
+                                       fixed=it.get('fixed'), whole_role=it.get('role', 'jit-program'), extra_assume=ex)
+            except Exception as e:
+                ctx.pr.out['errors'].append(f'{it["name"]}: {e}\n{traceback.format_exc()[-1200:]}')
+        ctx.pr.out['functions'] = ctx.I.functions_encoded(); ctx.pr.out['stubs'] = sorted(ctx.I.stubs_used)
+        Driver.close_all()
+        return dict(out=ctx.pr.out, cands=cands)
+    except Exception as e:
+        return dict(out=dict(errors=[f'worker crashed: {e}\n{traceback.format_exc()}']), cands=[])
+
+
+def run_items(items, props, timeout_ms):
+    import multiprocessing as mp
+    if not items: return dict(obligations=0, discharged=0), []
+    nj = min(common.jobs(), len(items))
+    with mp.Pool(nj) as pool:
+        res = pool.map(worker, [(items[i::nj], props, timeout_ms) for i in range(nj)])
+    out = dict(obligations=0, discharged=0, inconclusive=[], solver_s=0.0, nontrivial=[], witnesses=0, twins=0, samples=[], errors=[], programs=0, functions={})
+    cands = []
+    for r in res:
+        o = r['out']
+        for k in ('obligations', 'discharged', 'solver_s', 'witnesses', 'twins', 'programs'): out[k] += o.get(k, 0)
+        for k in ('inconclusive', 'nontrivial', 'errors'): out[k] += o.get(k, [])
+        out['samples'] += o.get('samples', [])[:2]; out['functions'].update(o.get('functions', {}))
+        cands += r['cands']
+    return out, cands
+
+
+def run_families(tier, timeout_ms, fams, props=('C03',)):
+    items = []
+    if 'F2' in fams: items += [dict(name=n, prog=p.hex(), vm='mbuff', min_mbuff=32, min_mem=8) for n, p in fam_F2()]
+    if 'F3' in fams: items += [dict(name=n, prog=p.hex(), vm='mbuff', min_mbuff=32, min_mem=8) for n, p in fam_F3(tier)]
+    return run_items(items, props, timeout_ms)
+
+
 def replay(c):
-    return None, 'not implemented'
+    """native differential run of the whole program: interpreter vs JIT"""
+    md = c.get('model')
+    if c.get('prog') is None and c.get('progname', '').startswith('far-'):
+        prog = dict(fam_F3('thorough') + fam_F3('quick'))[c['progname']]
+    elif c.get('prog') is None: return None, 'program not recorded'
+    else: prog = bytes.fromhex(c['prog'])
+    if md is None: return True, 'structural'
+    mem = bytes(md.get('mem_bytes', [])) + bytes(max(0, md['mem_len'] - len(md.get('mem_bytes', []))))
+    mbuff = bytes(md.get('mbuff_bytes', [])) + bytes(max(0, md['mbuff_len'] - len(md.get('mbuff_bytes', []))))
+    d = Driver.get('dev'); res = {}
+    for eng in ('interp', 'jit'):
+        res[eng] = d.run(prog, vm=c.get('vm', 'mbuff'), mem=mem, mbuff=mbuff, engine=eng, helpers=[tuple(h) for h in c.get('helpers', [])], fixed=c.get('fixed'))
+    a, b = res['interp'], res['jit']
+    c['replay'] = dict(mem=mem.hex(), mbuff=mbuff.hex(), results={e: {k: v for k, v in r.items() if k in ('status', 'value', 'msg', 'sig', 'mem', 'mbuff', 'hlog')} for e, r in res.items()})
+    if a.get('status') != 'ok': return None, f'interpreter run is {a.get("status")}: outside the premise'
+    if b.get('status') != 'ok': return True, f'interpreter returns {a["value"]:#x}; compiled code: {b.get("status")} {b.get("sig", b.get("msg"))}'
+    if a['value'] != b['value']: return True, f'interpreter returns {a["value"]:#x}, compiled code {b["value"]:#x}'
+    if a.get('mem') != b.get('mem') or a.get('mbuff') != b.get('mbuff'): return True, 'buffers differ'
+    if 'misaligned' in c['role']:
+        al = [h for h in b.get('hlog', []) if h[0] == 99 and h[2] != 0]
+        return (True, 'helper observed a misaligned stack') if al else (False, 'helper saw an aligned stack')
+    return False, 'engines agree natively'
